@@ -21,7 +21,8 @@ Inductive akind :=
 | KCheckNamed     (* AddCheck with a name:  if reversible = reversible && true;  reversible { append DropCheck } *)
 | KCheckUnnamed   (* AddCheck without a name: reversible = reversible && false; nothing appended *)
 | KGenerated      (* PostgreSQL ModifyColumn with ChangeGenerated: reversible = false; the inverse is appended *)
-| KAttr.          (* MySQL AddAttr / DropAttr: the attribute is written, nothing is appended, the flag is untouched *)
+| KAttr.          (* MySQL AddAttr / DropAttr: the attribute is written, nothing is appended and reversible = false
+                     (no statement restores the previous, implicit value; fix C17-mysql-table-attr-reverse) *)
 
 Record arm := mkArm { a_kind : akind; a_key : bytes }.
 
@@ -41,7 +42,7 @@ Fixpoint alter_loop (arms : list arm) (reverse : list arm) (reversible : bool) :
           if reversible' then alter_loop rest (reverse ++ [a]) reversible'
           else alter_loop rest reverse reversible'
       | KGenerated => alter_loop rest (reverse ++ [a]) false
-      | KAttr => alter_loop rest reverse reversible
+      | KAttr => alter_loop rest reverse false
       end
   end.
 
@@ -63,7 +64,7 @@ Definition alterTable_postgres (arms : list arm) : option (list arm) := alter_re
 
 (** the declarative reading *)
 Definition arm_reversible (a : arm) : bool :=
-  match a_kind a with KCheckUnnamed | KGenerated => false | _ => true end.
+  match a_kind a with KCheckUnnamed | KGenerated | KAttr => false | _ => true end.
 Definition arm_has_inverse (a : arm) : bool :=
   match a_kind a with KAttr | KCheckUnnamed => false | _ => true end.
 
